@@ -97,6 +97,11 @@ def dump_tables(overlay, fams):
         overlay.write("toktrie/examples/verif_dump.rs", f.read())
     vj = overlay.write("verif_vocab.json", json.dumps(fams))
     p = e1.native_run(overlay, ["run", "-q", "--offline", "-p", "toktrie", "--example", "verif_dump", "--", vj], cfgs=["verif_dump"])
+    # the example needs cfg(verif_dump): remove it again so later builds of the overlay (playback tests) do not see it
+    try:
+        os.remove(overlay.path("toktrie/examples/verif_dump.rs"))
+    except OSError:
+        pass
     if p.returncode != 0:
         return None, (p.stdout + p.stderr)[-4000:]
     return json.loads(p.stdout), ""
